@@ -1,6 +1,7 @@
 package world
 
 import (
+	"encoding/json"
 	"fmt"
 	"strings"
 )
@@ -19,6 +20,10 @@ func (g *Gen) str() string {
 func (g *Gen) litOfType(t string, depth int) *Expr {
 	switch {
 	case t == "string":
+		if g.P.HalfTyped > 0 && g.chance(0.04) && !g.P.JSONTwin {
+			// evaluates to a null of type string
+			return &Expr{K: "raw", S: g.pick([]string{"true ? null : \"a\"", "false ? \"a\" : null", "null"})}
+		}
 		if depth == 0 && g.P.HalfTyped > 0 && g.chance(0.1) && !g.P.JSONTwin {
 			return &Expr{K: "heredoc", S: "line one\nline two\n"}
 		}
@@ -204,6 +209,9 @@ func (g *Gen) exprFor(c *ConsSpec, depth int) *Expr {
 		for i := 0; i < n; i++ {
 			k := g.ident(used)
 			switch {
+			case g.chance(0.1) && !g.P.JSONTwin && g.P.HalfTyped > 0:
+				// quoted keys with escapes / odd characters
+				e.Keys = append(e.Keys, &Expr{K: "str", S: g.pick([]string{"a\"b", "back\\slash", "tab\there", "sp ace", "dollar${x}", "日本", ""})})
 			case c.AllowInterp && g.chance(0.2) && !g.P.JSONTwin:
 				e.Keys = append(e.Keys, &Expr{K: "tmpl", A: []*Expr{{K: "str", S: "k-"}, g.ref()}})
 			case g.chance(0.6):
@@ -216,6 +224,10 @@ func (g *Gen) exprFor(c *ConsSpec, depth int) *Expr {
 		return e
 	case "object":
 		e := &Expr{K: "obj", Multi: g.chance(0.6)}
+		if g.P.HalfTyped > 0 && g.chance(0.15) {
+			e.Keys = append(e.Keys, &Expr{K: "str", S: g.pick([]string{"a\"b", "back\\slash", "q\"", "日本"})})
+			e.A = append(e.A, g.litOfType("string", 3))
+		}
 		for _, a := range c.Attrs {
 			if a.Req || g.chance(0.6) {
 				if g.chance(0.2) {
@@ -624,6 +636,18 @@ func (g *Gen) World() *World {
 			p.Files = append(p.Files, f)
 		}
 		g.resolveRefs(p.Files)
+	}
+	if g.P.ClonePath && len(w.Paths) >= 2 {
+		// e.g. /env/dev and /env/prod holding the same files and pointing into the same module
+		src := w.Paths[0]
+		cl := &PathSpec{Dir: src.Dir + "_copy", Lang: src.Lang, Schema: src.Schema, SchemaV2: src.SchemaV2, Funcs: src.Funcs, Validators: src.Validators}
+		for _, f := range src.Files {
+			b, _ := json.Marshal(f)
+			var nf FileSpec
+			json.Unmarshal(b, &nf)
+			cl.Files = append(cl.Files, &nf)
+		}
+		w.Paths = append(w.Paths, cl)
 	}
 	if g.P.NoSchema {
 		for _, p := range w.Paths {
